@@ -90,38 +90,52 @@ func loopBackEdge(l *rangeLoop) func(b *ssa.BasicBlock, succ int) bool {
 // ruleSegmentsEmitOrFail is C10.R1.
 func ruleSegmentsEmitOrFail(c *Ctx, rule string) {
 	c.R.Rule(c.R.Property+"."+rule, 2, "all literal text kept in place and every {name} token replaced: no segment is silently skipped")
-	for _, f := range urlBuilders(c) {
+	for _, root := range urlBuilders(c) {
 		n := 0
-		for _, l := range rangeLoops(f) {
-			// only loops that emit
-			emits := false
-			for _, e := range l.elems {
-				if (&an.Query{Deep: deepDefault, Target: func(in ssa.Instruction) bool { _, ok := isBufWrite(in); return ok }, Block: func(in ssa.Instruction) bool { return in == e }}).Search(an.After(e)) != nil {
-					emits = true
+		for _, f := range builderCluster(c, root) {
+			for _, l := range rangeLoops(f) {
+				// only loops that emit
+				emits := false
+				for _, e := range l.elems {
+					if (&an.Query{Deep: deepDefault, Target: func(in ssa.Instruction) bool { _, ok := isBufWrite(in); return ok }, Block: func(in ssa.Instruction) bool { return in == e }}).Search(an.After(e)) != nil {
+						emits = true
+					}
 				}
-			}
-			if !emits {
-				continue
-			}
-			for _, e := range l.elems {
-				n++
-				path := (&an.Query{
-					Facts:      true,
-					Deep:       deepDefault,
-					Block:      func(in ssa.Instruction) bool { _, ok := isBufWrite(in); return ok || in == e },
-					TargetEdge: loopBackEdge(l),
-				}).Search(an.After(e))
-				construct := "segment-loop:" + an.AP(l.slice) + "/emits-or-fails"
-				o := c.R.Add(rule, c.fk(f), construct, c.pos(e), path == nil, ifelse(path == nil, "every feasible path through the loop body writes to the buffer or returns an error", "a segment can pass through the loop without emitting anything and without an error: the built URL silently drops that part of the pattern"))
-				if path != nil {
-					o.Path = c.P.PathString(path)
+				if !emits {
+					continue
+				}
+				for _, e := range l.elems {
+					n++
+					path := (&an.Query{
+						Facts:      true,
+						Deep:       deepDefault,
+						Block:      func(in ssa.Instruction) bool { _, ok := isBufWrite(in); return ok || in == e },
+						TargetEdge: loopBackEdge(l),
+					}).Search(an.After(e))
+					construct := "segment-loop:" + an.AP(l.slice) + "/emits-or-fails"
+					o := c.R.Add(rule, c.fk(f), construct, c.pos(e), path == nil, ifelse(path == nil, "every feasible path through the loop body writes to the buffer or returns an error", "a segment can pass through the loop without emitting anything and without an error: the built URL silently drops that part of the pattern"))
+					if path != nil {
+						o.Path = c.P.PathString(path)
+					}
 				}
 			}
 		}
 		if n == 0 {
-			an.Fatalf("UNRESOLVED anchor: no emitting segment loop in %s", c.fk(f))
+			c.R.Add(rule, c.fk(root), "segment-loop:none", c.P.Pos(root.Pos()), true, "the builder does not emit from a range loop over the segments (recursive or iterator form): the emits-or-fails rule has no loop body to examine here")
 		}
 	}
+}
+
+// builderCluster: the URL builder and the module functions it reaches by static calls (a helper may hold the loop).
+func builderCluster(c *Ctx, root *ssa.Function) []*ssa.Function {
+	reach := an.NewGraph(c.P).Reach([]*ssa.Function{root}, func(_ *ssa.Function, e an.Edge) bool { return e.Kind == "static" })
+	out := []*ssa.Function{root}
+	for _, f := range an.SortedFuncs(reach) {
+		if f != root && an.IsLibrary(f) && len(f.Blocks) > 0 {
+			out = append(out, f)
+		}
+	}
+	return out
 }
 
 // acceptQuery builds the targets of "the boolean function returns a possibly-true value".
@@ -171,8 +185,12 @@ func acceptTargets(f *ssa.Function, implied func(v ssa.Value) bool) (func(ssa.In
 
 // locCmp matches `loc[idx] == <rhs>`; rhsOK judges the other operand.
 func locCmp(v ssa.Value, loc ssa.Value, idx int64, rhsOK func(ssa.Value) bool) bool {
+	return locCmpOp(v, loc, idx, rhsOK, token.EQL)
+}
+
+func locCmpOp(v ssa.Value, loc ssa.Value, idx int64, rhsOK func(ssa.Value) bool, op token.Token) bool {
 	bo, ok := v.(*ssa.BinOp)
-	if !ok || bo.Op != token.EQL {
+	if !ok || bo.Op != op {
 		return false
 	}
 	try := func(l, r ssa.Value) bool {
@@ -197,51 +215,74 @@ func ruleStrictValidated(c *Ctx, rule string) {
 	c.R.Rule(c.R.Property+"."+rule+"b", 2, "the constraint is checked over the whole length of the value: regexp results are anchored")
 	valid := c.P.MustFunc("syntax.(*Segment).Valid")
 	// (a) Tree.URL: writes of a looked-up parameter value are dominated by Valid(value) on the same segment
-	f := a.TreeURL
+	root := a.TreeURL
 	n := 0
-	an.AllInstrs(f, func(in ssa.Instruction) {
-		call, ok := isBufWrite(in)
-		if !ok || len(call.Args) < 2 {
-			return
-		}
-		arg := call.Args[1]
-		var lk *ssa.Lookup
-		if ex, isEx := arg.(*ssa.Extract); isEx {
-			lk, _ = ex.Tuple.(*ssa.Lookup)
-		} else if l2, isLk := arg.(*ssa.Lookup); isLk {
-			lk = l2
-		}
-		if lk == nil {
-			return
-		}
-		if _, isParam := lk.X.(*ssa.Parameter); !isParam {
-			return
-		}
-		n++
-		segAP := strings.TrimSuffix(an.AP(lk.Index), ".Name")
-		dom := an.DominatedByEdge(in, func(b *ssa.BasicBlock, succ int) bool {
-			cond, onTrue := an.EdgeCond(b, succ)
-			if cond == nil {
-				return false
+	for _, f := range builderCluster(c, root) {
+		f := f
+		an.AllInstrs(f, func(in ssa.Instruction) {
+			call, ok := isBufWrite(in)
+			if !ok || len(call.Args) < 2 {
+				return
 			}
-			v, neg := stripNot(cond)
-			vc, ok := v.(*ssa.Call)
-			if !ok {
-				return false
+			arg := call.Args[1]
+			var lk *ssa.Lookup
+			if ex, isEx := arg.(*ssa.Extract); isEx {
+				lk, _ = ex.Tuple.(*ssa.Lookup)
+			} else if l2, isLk := arg.(*ssa.Lookup); isLk {
+				lk = l2
 			}
-			if g := an.StaticCallee(&vc.Call); g != valid {
-				return false
+			if lk == nil {
+				return
 			}
-			return onTrue != neg && an.AP(vc.Call.Args[0]) == segAP && vc.Call.Args[1] == arg
+			if _, isParam := lk.X.(*ssa.Parameter); !isParam {
+				return
+			}
+			n++
+			segAP := strings.TrimSuffix(an.AP(lk.Index), ".Name")
+			dom := an.DominatedByEdgeDeep([]*ssa.Function{root}, in, func(b *ssa.BasicBlock, succ int) bool {
+				return edgeHas(b, succ, func(cond ssa.Value, truth bool) bool {
+					vc, ok := cond.(*ssa.Call)
+					if !ok {
+						return false
+					}
+					if g := an.StaticCallee(&vc.Call); g != valid {
+						return false
+					}
+					return truth && an.AP(vc.Call.Args[0]) == segAP && (vc.Call.Args[1] == arg || an.AP(vc.Call.Args[1]) == an.AP(arg))
+				})
+			}, deepDefault)
+			c.R.Add(rule+"a", c.fk(f), "write:param-value/requires:Valid("+segAP+")", c.pos(in), dom, ifelse(dom, "dominated by the true edge of Valid(value) on the same segment", "strict URL building writes a parameter value that was not validated against its segment"))
 		})
-		c.R.Add(rule+"a", c.fk(f), "write:param-value/requires:Valid("+segAP+")", c.pos(in), dom, ifelse(dom, "dominated by the true edge of Valid(value) on the same segment", "strict URL building writes a parameter value that was not validated against its segment"))
-	})
+	}
 	if n == 0 {
-		c.R.Add(rule+"a", c.fk(f), "write:param-value/requires:Valid", c.P.Pos(f.Pos()), false, "the strict URL builder no longer writes looked-up parameter values")
+		c.R.Add(rule+"a", c.fk(root), "write:param-value/requires:Valid", c.P.Pos(root.Pos()), false, "the strict URL builder no longer writes looked-up parameter values")
 	}
 	// (b) anchoring in Valid (both ends) and Match (start)
 	match := a.SegmentMatch
-	for _, g := range []*ssa.Function{valid, match} {
+	// the validator, the matcher and the per-kind helpers they dispatch to (same package, static calls, boolean result)
+	inValid := map[*ssa.Function]bool{}
+	var gs []*ssa.Function
+	for _, root := range []*ssa.Function{valid, match} {
+		for _, g := range builderCluster(c, root) {
+			if g.Pkg != root.Pkg && g != root {
+				continue
+			}
+			if root == valid {
+				inValid[g] = true
+			}
+			dup := false
+			for _, x := range gs {
+				if x == g {
+					dup = true
+				}
+			}
+			if !dup {
+				gs = append(gs, g)
+			}
+		}
+	}
+	for _, g := range gs {
+		g := g
 		an.AllInstrs(g, func(in ssa.Instruction) {
 			call, ok := in.(*ssa.Call)
 			if !ok || !findIndexFuncs[an.CalleeName(&call.Call)] {
@@ -251,24 +292,25 @@ func ruleStrictValidated(c *Ctx, rule string) {
 			type need struct {
 				name string
 				cmp  func(v ssa.Value) bool
+				neq  func(v ssa.Value) bool // the same comparison written with !=
 			}
-			needs := []need{{"loc[0]==0", func(v ssa.Value) bool {
-				return locCmp(v, call, 0, func(r ssa.Value) bool {
-					k, ok := r.(*ssa.Const)
-					return ok && k.Value != nil && k.Int64() == 0
-				})
-			}}}
-			if g == valid {
-				needs = append(needs, need{"loc[1]==len(input)", func(v ssa.Value) bool {
-					return locCmp(v, call, 1, func(r ssa.Value) bool {
-						lc, ok := r.(*ssa.Call)
-						if !ok {
-							return false
-						}
-						_, isLen := builtinCall(lc, "len")
-						return isLen && (lc.Call.Args[0] == input || c.O.Of(lc.Call.Args[0]).String() == c.O.Of(input).String())
-					})
-				}})
+			isZero := func(r ssa.Value) bool {
+				k, ok := r.(*ssa.Const)
+				return ok && k.Value != nil && k.Int64() == 0
+			}
+			needs := []need{{"loc[0]==0", func(v ssa.Value) bool { return locCmp(v, call, 0, isZero) },
+				func(v ssa.Value) bool { return locCmpOp(v, call, 0, isZero, token.NEQ) }}}
+			if inValid[g] {
+				isLenInput := func(r ssa.Value) bool {
+					lc, ok := r.(*ssa.Call)
+					if !ok {
+						return false
+					}
+					_, isLen := builtinCall(lc, "len")
+					return isLen && (lc.Call.Args[0] == input || c.O.Of(lc.Call.Args[0]).String() == c.O.Of(input).String())
+				}
+				needs = append(needs, need{"loc[1]==len(input)", func(v ssa.Value) bool { return locCmp(v, call, 1, isLenInput) },
+					func(v ssa.Value) bool { return locCmpOp(v, call, 1, isLenInput, token.NEQ) }})
 			}
 			for _, nd := range needs {
 				nd := nd
@@ -283,7 +325,7 @@ func ruleStrictValidated(c *Ctx, rule string) {
 							return false
 						}
 						v, neg := stripNot(cond)
-						return nd.cmp(v) && onTrue != neg
+						return (nd.cmp(v) && onTrue != neg) || (nd.neq(v) && onTrue == neg)
 					},
 				}).Search(an.After(in))
 				construct := fmt.Sprintf("accept:%s/requires:%s", shortCallee(an.CalleeName(&call.Call)), nd.name)
@@ -314,28 +356,53 @@ func ruleStrictReachesValidator(c *Ctx, rule string) {
 	if strictP == nil || patternP == nil {
 		an.Fatalf("UNRESOLVED anchor: strict/pattern parameters of %s", c.fk(f))
 	}
+	// is v the given parameter of Router.URL, or a helper's parameter that receives it at every call site
+	var isRootParam func(v ssa.Value, target *ssa.Parameter, depth int) bool
+	isRootParam = func(v ssa.Value, target *ssa.Parameter, depth int) bool {
+		if v == ssa.Value(target) {
+			return true
+		}
+		if depth > 3 {
+			return false
+		}
+		args := argsOfParam(v)
+		if len(args) == 0 {
+			return false
+		}
+		for _, a := range args {
+			if !isRootParam(a, target, depth+1) {
+				return false
+			}
+		}
+		return true
+	}
 	assume := func(cond ssa.Value) (bool, bool) {
 		v, neg := stripNot(cond)
-		if v == ssa.Value(strictP) {
+		if isRootParam(v, strictP, 0) {
 			return !neg, true
 		}
 		if x, k, eq, ok := an.CondAtom(cond); ok {
 			// len(pattern) == 0  /  pattern == ""
 			if lc, isCall := x.(*ssa.Call); isCall {
-				if _, isLen := builtinCall(lc, "len"); isLen && lc.Call.Args[0] == ssa.Value(patternP) && an.ConstKey(k) == "0" {
+				if _, isLen := builtinCall(lc, "len"); isLen && isRootParam(lc.Call.Args[0], patternP, 0) && an.ConstKey(k) == "0" {
 					return !eq, true
 				}
 			}
-			if x == ssa.Value(patternP) && an.ConstKey(k) == `""` {
+			if isRootParam(x, patternP, 0) && an.ConstKey(k) == `""` {
 				return !eq, true
 			}
 		}
 		return false, false
 	}
 	path := (&an.Query{
-		Assume: assume,
-		Target: func(in ssa.Instruction) bool { r, ok := in.(*ssa.Return); return ok && an.IsSuccessReturn(r) },
-		Block:  func(in ssa.Instruction) bool { _, ok := calleeIs(in, c.A.TreeURL); return ok },
+		Assume:  assume,
+		Deep:    deepDefault,
+		Descend: func(g *ssa.Function) bool { return g != c.A.TreeURL },
+		Target: func(in ssa.Instruction) bool {
+			r, ok := in.(*ssa.Return)
+			return ok && in.Parent() == f && an.IsSuccessReturn(r)
+		},
+		Block: func(in ssa.Instruction) bool { _, ok := calleeIs(in, c.A.TreeURL); return ok },
 	}).Search(an.Entry(f))
 	o := c.R.Add(rule, c.fk(f), "strict=true,pattern!=\"\"/success-requires:"+an.FuncKey(c.A.TreeURL), c.P.Pos(f.Pos()), path == nil, ifelse(path == nil, "with strict and a non-empty pattern every successful return went through the tree's URL builder", "strict URL building can succeed without consulting the route table: an unregistered pattern is accepted"))
 	if path != nil {
@@ -453,30 +520,133 @@ func isCommaOkIf(b *ssa.BasicBlock, lk *ssa.Lookup) bool {
 // ruleNameCleaned is C10.R5.
 func ruleNameCleaned(c *Ctx, rule string) {
 	a := c.A
-	c.R.Rule(c.R.Property+"."+rule, 3, "a leading '-' in the name is ignored: the flag is stripped wherever a parameter name is set")
-	clean := c.P.MustFunc("syntax.(*Segment).cleanName")
-	f := c.P.MustFunc("syntax.(*Interceptors).NewSegment")
-	an.AllInstrs(f, func(in ssa.Instruction) {
-		base, field, _, ok := fieldStore(in, a.SegmentT)
-		if !ok || field != "Name" {
-			return
+	c.R.Rule(c.R.Property+"."+rule, 1, "a leading '-' in the name is ignored: the flag is stripped wherever a parameter name is set")
+	root := c.P.MustFunc("syntax.(*Interceptors).NewSegment")
+	// cleaners by role: a function that stores Name[1:] back into the Name of a segment it received (cleanName), or a
+	// pure function that returns its string parameter without its first byte (trimIgnorePrefix-style)
+	cleanerOn := map[*ssa.Function]int{} // function -> index of the segment parameter it cleans
+	pureTrim := map[*ssa.Function]bool{}
+	isOwnCleanStore := map[ssa.Instruction]bool{}
+	for _, g := range c.libFuncs() {
+		an.AllInstrs(g, func(in ssa.Instruction) {
+			base, field, val, ok := fieldStore(in, a.SegmentT)
+			if !ok || field != "Name" {
+				return
+			}
+			sl, isSl := val.(*ssa.Slice)
+			if !isSl || sl.Low == nil {
+				return
+			}
+			if k, isC := sl.Low.(*ssa.Const); !isC || k.Value == nil || k.Int64() != 1 {
+				return
+			}
+			if an.AP(sl.X) != base+".Name" {
+				return
+			}
+			for i, p := range g.Params {
+				if an.AP(p) == base {
+					cleanerOn[g] = i
+					isOwnCleanStore[in] = true
+				}
+			}
+		})
+		if g.Signature.Params().Len() >= 1 && g.Signature.Results().Len() >= 1 {
+			for _, r := range an.Returns(g) {
+				for _, res := range r.Results {
+					if sl, ok := res.(*ssa.Slice); ok && sl.Low != nil {
+						if k, isC := sl.Low.(*ssa.Const); isC && k.Value != nil && k.Int64() == 1 {
+							if _, isPar := sl.X.(*ssa.Parameter); isPar {
+								pureTrim[g] = true
+							}
+						}
+					}
+				}
+			}
 		}
-		path := (&an.Query{
-			Target: func(t ssa.Instruction) bool { r, ok := t.(*ssa.Return); return ok && an.IsSuccessReturn(r) },
+	}
+	cleanedValue := func(v ssa.Value) bool {
+		if ex, ok := v.(*ssa.Extract); ok {
+			v = ex.Tuple
+		}
+		call, ok := v.(*ssa.Call)
+		if !ok {
+			return false
+		}
+		g := an.StaticCallee(&call.Call)
+		return g != nil && pureTrim[g]
+	}
+	cleansAfter := func(from ssa.Instruction, base string, self ssa.Instruction) []an.Point {
+		return (&an.Query{
+			Deep: deepDefault,
+			Target: func(t ssa.Instruction) bool {
+				r, ok := t.(*ssa.Return)
+				return ok && t.Parent() == from.Parent() && an.IsSuccessReturn(r)
+			},
 			Block: func(t ssa.Instruction) bool {
-				if call, ok := calleeIs(t, clean); ok && an.AP(call.Args[0]) == base {
-					return true
+				if t.Parent() != from.Parent() {
+					return false
+				}
+				if call := an.CallOf(t); call != nil {
+					if g := an.StaticCallee(call); g != nil {
+						if i, ok := cleanerOn[g]; ok {
+							args := an.CallArgs(call)
+							if i < len(args) && an.AP(args[i]) == base {
+								return true
+							}
+						}
+					}
 				}
 				// a later store to Name supersedes this one
-				if b2, f2, _, ok := fieldStore(t, a.SegmentT); ok && f2 == "Name" && b2 == base && t != in {
+				if b2, f2, _, ok := fieldStore(t, a.SegmentT); ok && f2 == "Name" && b2 == base && t != self {
 					return true
 				}
 				return false
 			},
-		}).Search(an.After(in))
-		o := c.R.Add(rule, c.fk(f), "store:Name/then:cleanName", c.pos(in), path == nil, ifelse(path == nil, "every successful path strips the '-' flag after setting the name", "a parameter name can keep its '-' flag: URL building and capture then use a different key than documented"))
-		if path != nil {
-			o.Path = c.P.PathString(path)
-		}
-	})
+		}).Search(an.After(from))
+	}
+	for _, f := range builderCluster(c, root) {
+		f := f
+		an.AllInstrs(f, func(in ssa.Instruction) {
+			base, field, val, ok := fieldStore(in, a.SegmentT)
+			if !ok || field != "Name" || isOwnCleanStore[in] {
+				return
+			}
+			if cleanedValue(val) {
+				c.R.Add(rule, c.fk(f), "store:Name/then:cleanName", c.pos(in), true, "the stored name went through the '-' trimmer")
+				return
+			}
+			path := cleansAfter(in, base, in)
+			good := path == nil
+			if !good {
+				// a helper that stores into the segment it received: its callers clean afterwards
+				pi := -1
+				for i, p := range f.Params {
+					if an.AP(p) == base {
+						pi = i
+					}
+				}
+				if pi >= 0 && f != root {
+					n, all := 0, true
+					for _, h := range c.libFuncs() {
+						an.AllInstrs(h, func(t ssa.Instruction) {
+							call, isCall := t.(*ssa.Call)
+							if !isCall || an.StaticCallee(&call.Call) != f {
+								return
+							}
+							n++
+							args := an.CallArgs(&call.Call)
+							if pi >= len(args) || cleansAfter(t, an.AP(args[pi]), nil) != nil {
+								all = false
+							}
+						})
+					}
+					good = n > 0 && all
+				}
+			}
+			o := c.R.Add(rule, c.fk(f), "store:Name/then:cleanName", c.pos(in), good, ifelse(good, "every successful path strips the '-' flag after setting the name", "a parameter name can keep its '-' flag: URL building and capture then use a different key than documented"))
+			if !good && path != nil {
+				o.Path = c.P.PathString(path)
+			}
+		})
+	}
 }
